@@ -15,6 +15,7 @@ NOT_A_VIOLATION = {
     'C04-6': 'judged not decidable by C04 as stated: the order in which a loop-region change and a seek written in the same period take effect is not part of the property (per-kind mailboxes; either order is some sequential order of the two calls); see 12.1',
 }
 LIMIT = {
+    'C11-16': 'not caught: after commands on an effect with memory the worlds legitimately differ for a while; C11\'s command prelude is restricted to scenes without effects (see 12.1)',
     'C16-10': 'not caught: the window it opens (a track added while the rate change is fanned out) lies inside the class of schedules the generator avoids while the open finding C16-stale-rate-on-queued-track is listed (on the unchanged tree a track added just before the change is already left at the old rate); see 12.1',
     'C07-4': 'not caught: needs a switch between two loads inside one function (yield-point granularity, section 7)',
 }
